@@ -1,6 +1,6 @@
 """Runs in a fresh interpreter (its own PYTHONHASHSEED): parses a schema, runs one generator, prints {path: contents} as JSON.
 argv: <schema file> <generator> <outdir> [history]   history = 'none' | 'busy' (parse/generate other things first) | 'twice' |
-'others-first' (the other generators run first on the same parsed object) | 'after:<other schema file>' (parse that schema - same type names, other definitions - and run every generator on it first)"""
+'module-rewritten:<file>' (the schema's module held <file>'s text during a first parse+generate of this process) | 'others-first' (the other generators run first on the same parsed object) | 'after:<other schema file>' (parse that schema - same type names, other definitions - and run every generator on it first)"""
 import contextlib
 import io
 import json
@@ -37,6 +37,27 @@ def main():
                 generate(g, other, outdir + "_prev")
             except Exception:
                 pass
+    if history.startswith("module-rewritten:"):
+        # the module file (<schema stem>_types.fcp, next to the schema) held other definitions when this process parsed and
+        # generated the first time; it is then rewritten to what is on disk for everybody else, and the schema is parsed again
+        import shutil
+        priv = outdir + "_priv"
+        os.makedirs(priv, exist_ok=True)
+        stem = os.path.basename(schema)[:-4]
+        real_mod = os.path.join(os.path.dirname(schema), stem + "_types.fcp")
+        shutil.copy(schema, os.path.join(priv, stem + ".fcp"))
+        shutil.copy(history[len("module-rewritten:"):], os.path.join(priv, stem + "_types.fcp"))
+        try:
+            first = get_fcp(os.path.join(priv, stem + ".fcp")).unwrap()
+            for g in ("dbc", "can_c", "cpp", "nop"):
+                try:
+                    generate(g, first, outdir + "_first")
+                except Exception:
+                    pass
+        except Exception:
+            pass
+        shutil.copy(real_mod, os.path.join(priv, stem + "_types.fcp"))
+        schema = os.path.join(priv, stem + ".fcp")
     fcp = get_fcp(schema).unwrap()
     if history == "others-first":
         # every other generator runs first on the SAME parsed schema object (a generator must not change its input)
